@@ -342,6 +342,16 @@ func genC07(r *gen.Rng, tier string, emit func(string)) {
 	emit("compose 3 0 -")
 	emit("compose 2 0 65")
 	emit("compose 4 0 65")
+	// the same text composed again and again under different codings (same and different reference widths): a composition
+	// must not depend on what was composed before it
+	for _, n := range []int{200, 450} {
+		t := showRunes(repeatRune('a', n))
+		for _, ref := range []int{7, 300} {
+			for _, c := range []int{0, 3, 0, 8, 1, 0, 6, 3} {
+				emit(fmt.Sprintf("compose %d %d %s", c, ref, t))
+			}
+		}
+	}
 	for _, c := range composeCodings {
 		rep := repertoireOf(c)
 		sizes := rep.sizes()
